@@ -81,7 +81,12 @@ def build_session(rng, tmp, kind, metric, thorough, lattice=None):
     # ... and a sample of magnitude 1e200, finite itself, whose squared differences overflow: every distance from it is infinite. Whatever
     # label such a sample gets, it gets it at every position of every batch
     huge = np.full((1, X.shape[1]), 1e200)
-    allq = np.vstack([Q, X, far, huge])
+    # ... and records that are not finite at all (a missing value, an overflowed measurement): they are records of the batch like any
+    # other - each gets an answer, the same one wherever it stands, and the answers of the records around it do not move
+    odd = np.vstack([Q[:1], Q[:1]])
+    odd[0, 0] = np.inf
+    odd[1, -1] = np.nan
+    allq = np.vstack([Q, X, far, huge, odd])
     m = len(allq)
     for rnd in range(rng.randrange(6, 14 if thorough else 9)):
         c = rng.random()
